@@ -134,7 +134,12 @@ def prefix_of(ranges):
     return n
 
 
+SINK_FLOW_ID = 3            # the flow id of a sink case that names none
+
+
 def run_sink_impl(case):
+    """the arrivals of `case` handed to a real TCPSink as DATA packets of flow `case['flow_id']`; returns the observation lines, the ACK
+    numbers the sink returned FOR EACH ARRIVAL (a list per arrival: the packets its `out` was given during that put) and the error"""
     env = Environment()
     with quiet():
         sink = TCPSink(env)
@@ -142,38 +147,53 @@ def run_sink_impl(case):
     sink.out = out
     lines, acks = [], []
     err = None
+    fid = case.get('flow_id', SINK_FLOW_ID)
     for seq, size in case['arrivals']:
+        n = len(out.items)
         try:
             with quiet():
-                sink.put(Packet(0.0, size, seq, flow_id=3))
+                sink.put(Packet(0.0, size, seq, flow_id=fid))
         except Exception as x:
             lines.append(f'A X {type(x).__name__}')
             err = type(x).__name__
             break
-        a = out.items[-1]
-        acks.append(a.ack)
-        lines.append(f'A {a.ack} B ' + ','.join(f'{s}:{e}' for s, e in sink.recv_buffer))
+        new = [a.ack for a in out.items[n:]]
+        acks.append(new)
+        buf = ','.join(f'{s}:{e}' for s, e in sink.recv_buffer)
+        # (one line per returned ACK, as the model answers one per arrival; `A none` when the sink kept silent)
+        lines.extend([f'A {a} B {buf}' for a in new] or [f'A none B {buf}'])
     return lines, acks, err
 
 
 def sink_oracle(case, acks, err):
+    """the sink clause, restated: "the ACK number a TCPSink returns FOR EVERY ARRIVING SEGMENT equals the length of the contiguous byte
+    prefix [0, n) it has received so far ... and therefore never decreases" - whatever (legal) flow id the segments carry: the clause
+    names no flow-id range (the ACK class of flow f is f + 10000, so data flow 10000 is answered under 20000).  `acks[i]` = the ACK
+    numbers returned during the i-th put: there must be one, and every one must be the prefix length."""
     fails = []
+    fid = case.get('flow_id', SINK_FLOW_ID)
+    note = f' [segments of data flow {fid}]' if 'flow_id' in case else ''
     if err:
-        fails.append({'what': f'TCPSink.put raised {err}', 'signature': f'sink-raise-{err}'})
+        fails.append({'what': f'TCPSink.put raised {err}' + note, 'signature': f'sink-raise-{err}'})
     got = []
     prev = 0
-    for i, a in enumerate(acks):
+    for i, mine in enumerate(acks):
         seq, size = case['arrivals'][i]
         got.append((seq, seq + size))
         want = prefix_of(got)
-        if a != want:
-            fails.append({'what': f'arrival {i} (seq {seq}, size {size}): ACK {a}, contiguous prefix is {want}',
-                          'signature': 'sink-ack-not-prefix'})
+        if not mine:
+            fails.append({'what': f'arrival {i} (seq {seq}, size {size}): the sink returned no ACK at all; every arriving segment is answered '
+                                  f'with the contiguous prefix length, here {want}' + note, 'signature': 'sink-no-ack'})
             break
-        if a < prev:
-            fails.append({'what': f'arrival {i}: ACK decreased from {prev} to {a}', 'signature': 'sink-ack-decreased'})
-            break
-        prev = a
+        for a in mine:
+            if a != want:
+                fails.append({'what': f'arrival {i} (seq {seq}, size {size}): ACK {a}, contiguous prefix is {want}' + note,
+                              'signature': 'sink-ack-not-prefix'})
+                return fails
+            if a < prev:
+                fails.append({'what': f'arrival {i}: ACK decreased from {prev} to {a}' + note, 'signature': 'sink-ack-decreased'})
+                return fails
+            prev = a
     return fails
 
 
@@ -375,6 +395,45 @@ def loop_oracle(case, sr, sink, ended):
                           'signature': 'loop-spurious-retransmit'})
         case['_timely'] = timely
     return fails
+
+
+# ---- data flow ids -------------------------------------------------------------------------------------------
+
+ASSUMPTIONS.append('data flow ids: any non-negative integer - a share of the sink sequences and closed loops (about one in ten) carries a DATA flow id of '
+                   '10000 or more (10000, 12345, 10000*tenant+i, ...): the library marks the ACK of flow f by f + 10000 and the sender only asserts '
+                   'ack.flow_id >= 10000, so such flows are legal and C16 names no flow-id range (the "fewer than 10000 flows" reading of DESIGN 3 is '
+                   "C18's, for forwarding tables that hold both classes); neither model takes the data flow id (the sink model sees seq/size, the sender "
+                   'LTS sees the ACK with the id it arrived under), so these cases are replayed through the models like all others')
+FLOW_ID_SHARE = 0.12          # share of the cases that name their flow id (of these ~85 % at or above 10000)
+
+
+def gen_flow_id(rng):
+    """a legal DATA flow id for a sink sequence / a closed loop: mostly at or above the ACK offset 10000 (a simulation with many thousands of
+    numbered flows; ids composed as 10000*tenant + i; the boundary 10000 itself; ids above the ACK class of small flows), sometimes a
+    small or boundary id below it"""
+    r = rng.random()
+    if r < 0.25:
+        return rng.choice([10000, 10000, 10001, 19999, 20000])
+    if r < 0.50:
+        return 10000 * rng.randint(1, 9) + rng.randint(0, 99)
+    if r < 0.70:
+        return rng.choice([12345, 30000, 65535, 99999])
+    if r < 0.85:
+        return rng.randint(10000, 10 ** 6)
+    return rng.choice([0, 1, 7, 5000, 9998, 9999])
+
+
+def assign_flow_ids(cases, rng):
+    """the flow-id range of the workload: a share of the generated sink sequences and closed loops is run under an explicit data flow id
+    (`case['flow_id']`; without it a sink case uses SINK_FLOW_ID and a loop flow 0).  Peer connections of a group keep their relation to the
+    loop under test (same id, or id + j).  Drawn from a stream of its own, so the arrival sequences / paths of a seed are what they were."""
+    for c in cases:
+        pick, fid = rng.random() < FLOW_ID_SHARE, gen_flow_id(rng)
+        if not pick or c.get('kind') not in ('sink', 'loop'):
+            continue
+        c['flow_id'] = fid
+        for p in c.get('peers') or []:
+            p['flow_id'] = fid + p.get('flow_id', 0)
 
 
 # ---- the check ------------------------------------------------------------------------------------------------
@@ -640,6 +699,7 @@ def run(ctx):
         cases += [gen_sink_case(rng) for _ in range(n_sink)]
         cases += enum_loop_cases(4, small=True) if ctx.quick else enum_loop_cases(8)
         cases += [gen_loop_group(rng) for _ in range(n_loop)]
+        assign_flow_ids(cases, random.Random(f'C16-flowids-{ctx.seed}'))
     disagreements, oracle_failures = [], []
     hist = collections.Counter()
     samples = []
@@ -661,6 +721,8 @@ def run(ctx):
             hist['sink-out-of-order-or-overlapping'] += 1
         if any(s != 0 for s, z in c['arrivals'][:1]):
             hist['sink-first-segment-late-or-missing'] += 1
+        if 'flow_id' in c:
+            hist['sink-data-flow-id-' + ('10000-or-more' if c['flow_id'] >= 10000 else 'named-below-10000')] += 1
         if lines != m:
             d = first_diff(lines, m)
             disagreements.append({'case': c, 'detail': f'sink arrival {d[0]}: impl `{d[1]}` model `{d[2]}`',
@@ -669,7 +731,7 @@ def run(ctx):
             f.update(case=c, trace=lines[:60])
             oracle_failures.append(f)
         if len(samples) < 1 and sink_nontrivial(c) and len(c['arrivals']) >= 4:
-            samples.append({'sink_arrivals': c['arrivals'], 'acks': acks})
+            samples.append({'sink_arrivals': c['arrivals'], 'acks': [a for l in acks for a in l]})
 
     # closed loops
     loops = [(i, c) for i, c in enumerate(cases) if c['kind'] == 'loop']
@@ -698,7 +760,7 @@ def run(ctx):
         lines_compared += len(sr.trace)
         if label:
             hist['peer-connections'] += 1
-            hist['peer-connections-same-flow-id'] += 1 if uc.get('flow_id', 0) == 0 else 0
+            hist['peer-connections-same-flow-id'] += 1 if uc.get('flow_id', 0) == top.get('flow_id', 0) else 0
             hist['peer-connections-retransmissions'] += sum(len(r['tx']) for r in sr.records if r['tag'] in 'AF')
         elif top.get('peers'):
             hist['loops-with-peer-connections'] += 1
@@ -721,6 +783,8 @@ def run(ctx):
             if r['tx'] and r['tag'] in 'AF':
                 hist['retransmissions'] += len(r['tx'])
         hist['loop-' + c['cc']] += 1
+        if 'flow_id' in top:
+            hist['loop-data-flow-id-' + ('10000-or-more' if c.get('flow_id', 0) >= 10000 else 'named-below-10000')] += 1
         hist[f'loop-drops-{min(len(c["ddrops"]) + len(c["adrops"]), 4)}{"+" if len(c["ddrops"]) + len(c["adrops"]) >= 4 else ""}'] += 1
         hist['dropped-data'] += len(dpath.dropped)
         hist['dropped-acks'] += len(apath.dropped)
@@ -743,9 +807,15 @@ def run(ctx):
             disagreements.append({'case': clean(top), 'detail': f'{label}sink (in loop) arrival {d[0]}: impl `{d[1]}` model `{d[2]}`',
                                   'impl': slines[:60], 'model': (km or [])[:60]})
         # the sink oracle applies inside the loop as well
-        for f in sink_oracle({'arrivals': [[pid, sr.sender.mss] for pid, a, b in sinklog]}, [a for pid, a, b in sinklog], None):
+        for f in sink_oracle({'arrivals': [[pid, sr.sender.mss] for pid, a, b in sinklog]}, [[a] for pid, a, b in sinklog], None):
             f.update(case=clean(top), trace=slines[:80], what=label + f['what'])
             oracle_failures.append(f)
+        # ... "for EVERY arriving segment": the sink was handed `dpath.delivered` segments by the data path (counted by the harness path
+        # itself) and each of them is answered on the spot, so its `out` has been given exactly as many ACKs - whatever the flow id
+        if not (sr.error and sr.error[0] != 'budget') and dpath.delivered != len(sinklog):
+            oracle_failures.append({'what': f'{label}the data path handed {dpath.delivered} segments of flow {c.get("flow_id", 0)} to the sink, the sink '
+                                            f'returned {len(sinklog)} ACKs: every arriving segment is answered with the contiguous prefix length',
+                                    'signature': 'loop-sink-ack-count', 'case': clean(top), 'trace': slines[:80] + ['--'] + sr.lines[:60]})
         for f in loop_oracle(c, sr, sink, ended):
             f.update(case=clean(top), trace=sr.lines[:200] + ['--'] + sr.trace[-6:], what=label + f['what'])
             oracle_failures.append(f)
@@ -782,6 +852,11 @@ def run(ctx):
                 'distinct configurations in which at least one packet was really dropped or a segment retransmitted',
         'samples': samples,
         'sink_sequences': len(sinks), 'closed_loops': len(loops), 'closed_loops_executed_a_second_time': again,
+        'data_flow_ids': {'sink_sequences_at_or_above_10000': sum(1 for _, c in sinks if c.get('flow_id', 0) >= 10000),
+                          'closed_loops_at_or_above_10000': sum(1 for _, c in loops if c.get('flow_id', 0) >= 10000),
+                          'named_below_10000': sum(1 for c in cases if 0 <= c.get('flow_id', -1) < 10000),
+                          'replayed_through_the_models': True,
+                          'sample_ids': sorted({c['flow_id'] for c in cases if 'flow_id' in c})[:12]},
         'traces_validated_against_impl': len(cases) - len({json.dumps(d['case'], sort_keys=True) for d in disagreements}),
         'sender_observation_lines_compared': lines_compared,
         'disagreements_not_about_this_property': foreign,
